@@ -896,9 +896,13 @@ class LogicalLinkController(object):
     def close(self, socket):
         if not isinstance(socket, tco.TransmissionControlObject):
             raise err.Error(errno.ENOTSOCK)
-        if socket.is_bound:
-            self.sap[socket.addr].remove_socket(socket)
+        addr = socket.addr
+        sap = None if addr is None else self.sap[addr]
+        if sap is not None:
+            sap.remove_socket(socket)
         else:
+            # not bound, or the service access point is already gone
+            # (the socket was closed before or the link is terminated)
             socket.close()
 
     def getsockname(self, socket):
